@@ -470,6 +470,16 @@ def gen_contention(rng):
             if rng.random() < 0.5:
                 spec['actions'].append([t + rng.choice([3, 4, 6]), rng.choice(PRIOS), 'addres', rng.choice(list(spec['res'])),
                                         rng.choice([-1, -2])])
+    if rng.random() < 0.3:
+        # maintenance that starts in the very instant of a back-to-back hand-over, after the hand-over events (PASS_PART, 7)
+        # and before the deferred release check (6) of that instant
+        for _ in range(rng.choice([1, 2, 4])):
+            t = rng.choice([1, 2, 3, 4, 6, 1.5, 2.5])
+            x = rng.choice(ps)
+            spec['actions'].append([t, 6.5, rng.choice(['maint', 'maint', 'shutdown']), x] + [rng.choice([0.5, 1, 2.75])])
+            if spec['actions'][-1][2] == 'shutdown':
+                spec['actions'][-1] = spec['actions'][-1][:4]
+                spec['actions'].append([t + rng.choice([0.5, 1.25, 3]), rng.choice(PRIOS), 'restore', x])
     if rng.random() < 0.25:
         # deliveries: the sources hold few parts and are topped up by low-priority events, several of them at the same
         # instant, so that a (zero-cycle) processor gets parts again after its deferred release event of that instant
